@@ -63,7 +63,7 @@ Print Assumptions C14_blocks_disjoint.
 
 Theorem C14_other_arena_untouched :
   forall dbg st a o, sel (negb a) (fst (sstep dbg st (SCli a o))) = sel (negb a) st.
-Proof. intros dbg st a o. exact (sstep_other_arena dbg st (SCli a o)). Qed.
+Proof. exact other_arena_untouched. Qed.
 Print Assumptions C14_other_arena_untouched.
 
 (* A whole lexical scope `{ let x = scratch_arena(c); body }` with a disciplined body that
@@ -95,6 +95,18 @@ Theorem C14_contents_preserved :
 Proof. exact sstep_contents. Qed.
 Print Assumptions C14_contents_preserved.
 
+(* ... and over whole runs: along any disciplined history from `init`, every block that a
+   client filled (`OWrite`) and that is still live carries, on the recorded prefix (a shrink
+   cuts it), exactly the pattern last written to it — whatever the other phases did in either
+   arena, under any wiring.  `grun` is ghost bookkeeping (proofs/ScratchProofs.v): which
+   (arena, block id) was filled with which seed; it reads the op list and the ledgers only. *)
+Theorem C14_written_reads_back :
+  forall dbg b0 b1 cap ops,
+  run_disc dbg (sinit b0 b1 cap) ops ->
+  Forall (went_ok (srun dbg (sinit b0 b1 cap) ops)) (grun dbg (sinit b0 b1 cap) ops []).
+Proof. exact written_reads_back. Qed.
+Print Assumptions C14_written_reads_back.
+
 (* reinit_history_independent.  Let `prev` be any disciplined history of the process that
    has dropped all its borrows (a finished playground run), in debug or release.  After
    `init`, the trace of ANY disciplined history `ops` — which arena each borrow gets, the
@@ -111,6 +123,21 @@ Theorem C14_reinit_history_independent :
   strace dbg' (sinit b0 b1 cap) ops.
 Proof. exact reinit_history_independent_lemma. Qed.
 Print Assumptions C14_reinit_history_independent.
+
+(* ... and the data clients wrote reads back the same: one and the same list of written
+   entries (arena, block id, seed, length) is valid in the final state on fresh arenas and in
+   the final state after re-initialisation following any previous run.  (Bytes a client never
+   wrote — stale contents, poison — may differ; no modelled client reads them.) *)
+Theorem C14_reinit_contents_independent :
+  forall dbg dbg' b0 b1 cap prev ops,
+  run_disc dbg (sinit b0 b1 cap) prev ->
+  ss_bors (srun dbg (sinit b0 b1 cap) prev) = [] ->
+  run_disc dbg' (sinit b0 b1 cap) ops ->
+  let again := fst (sstep dbg (srun dbg (sinit b0 b1 cap) prev) SInit) in
+  let g := grun dbg' (sinit b0 b1 cap) ops [] in
+  Forall (went_ok (srun dbg' (sinit b0 b1 cap) ops)) g /\ Forall (went_ok (srun dbg again ops)) g.
+Proof. exact reinit_contents_independent_lemma. Qed.
+Print Assumptions C14_reinit_contents_independent.
 
 (* Normalisation (block indices taken among the borrow's own blocks, reset targets taken
    relative to the saved offset — what `nsmodel scratch` and the harness both apply) turns
@@ -148,19 +175,13 @@ Print Assumptions C14_lib_wiring.
 Theorem C14_cli_pipeline_invariant :
   forall dbg b0 b1 cap p l1 l2,
   phase_ok p -> cli_shape p = l1 ++ l2 -> SInv (nrun dbg (sinit b0 b1 cap) l1).
-Proof.
-  intros dbg b0 b1 cap p l1 l2 Hp He. apply (pipeline_prefix_inv dbg b0 b1 cap l1 l2).
-  rewrite <- He. exact (cli_shape_ok p Hp).
-Qed.
+Proof. exact cli_pipeline_invariant. Qed.
 Print Assumptions C14_cli_pipeline_invariant.
 
 Theorem C14_lib_pipeline_invariant :
   forall dbg b0 b1 cap p l1 l2,
   phase_ok p -> lib_shape p = l1 ++ l2 -> SInv (nrun dbg (sinit b0 b1 cap) l1).
-Proof.
-  intros dbg b0 b1 cap p l1 l2 Hp He. apply (pipeline_prefix_inv dbg b0 b1 cap l1 l2).
-  rewrite <- He. exact (lib_shape_ok p Hp).
-Qed.
+Proof. exact lib_pipeline_invariant. Qed.
 Print Assumptions C14_lib_pipeline_invariant.
 
 Theorem C14_cli_pipeline_clean :
@@ -242,6 +263,14 @@ Example demo_midpoint :
   map (fun b => (b_off b, b_len b)) (c_live (ss1 st)) = [(71200, 100); (71312, 70050); (0, 1200)] /\
   length (c_live (ss0 st)) = 3%nat.
 Proof. vm_compute. repeat split; reflexivity. Qed.
+
+(* the written entries at the midpoint: the source block in arena 0, the resolver's grown
+   block and the frame's big block (moved by a grow, still carrying its pattern) in arena 1 *)
+Example demo_written :
+  map (fun e => (we_arena e, we_id e, we_seed e, we_len e))
+      (grun true (sinit 4096 8192 1048576) (firstn 14 demo_ops) []) =
+  [(true, 1, 9, 70000); (true, 0, 5, 1200); (false, 0, 11, 3000)].
+Proof. vm_compute. reflexivity. Qed.
 
 (* the same history again after re-initialisation gives the same trace *)
 Example demo_twice :
